@@ -146,6 +146,8 @@ def disjuncts(e):
 def conj(e):
     """Conjunct set {(atom, polarity)} of a boolean expression (conjunct normal form of literals())."""
     from .fsm import atom_of
+    if isinstance(e, E) and e.op in ('sig', 'slice', 'param') and isinstance(e.w, int) and e.w > 1:
+        return {(e.canon(), True)}             # a plain multi-bit value, not a condition
     return {atom_of(l) for l in literals(e, True)}
 
 
@@ -199,3 +201,58 @@ def eval_guard(item, asg):
 def eval_expr(e, asg):
     from .fsm import eval_bool
     return eval_bool(e, asg)
+
+
+def flag_values(ir, name, state=None, assume=None, init=False, domain=None):
+    """One-cycle truth table of a one-bit signal: for every valuation of the boolean atoms its drivers mention (guards
+    and right-hand sides alike), the value the LAST driver whose guard holds gives it (Amaranth: the last assignment
+    wins; `init` if none fires).  Only the drivers outside any FSM state or inside `state` take part.  The spelling
+    of a driver -- `If(c): x.eq(1)`, `x.eq(c)`, `x.eq(Mux(c, 1, 0))` -- makes no difference to the table.
+    Yields (assignment, value); with a list/tuple of names, one table over the atoms of all of them is built and the
+    value is a dict name -> value."""
+    from .fsm import lit_atoms, assignments, holds, eval_bool
+    names = [name] if isinstance(name, str) else list(name)
+    dss = {}
+    ats = []
+    for n in names:
+        ds = [a for a in ir.drivers(n, exact=True) if (a.state is None or state_of(a) == state) and (domain is None or a.domain == domain)]
+        ds.sort(key=lambda a: a.order)
+        dss[n] = ds
+        for a in ds:
+            for l in a.guard:
+                ats += list(lit_atoms(l))
+            if isinstance(a.rhs, E) and a.rhs.op != 'const':
+                ats += bool_leaves(a.rhs)
+    for asg in assignments(ats, assume):
+        vals = {}
+        for n in names:
+            val = init
+            for a in dss[n]:
+                if holds(a.guard, asg):
+                    v = eval_bool(a.rhs, asg) if isinstance(a.rhs, E) else bool(a.rhs)
+                    if v is None:
+                        raise AnalysisError('flag_values(%s): the right-hand side %s is not a boolean combination' % (n, rhs_canon(a)))
+                    val = v
+            vals[n] = val
+        yield asg, (vals[name] if isinstance(name, str) else vals)
+
+
+def raise_lits(a):
+    """The literals under which an assignment makes its one-bit target 1: the guard, plus -- when the right-hand side
+    is a condition rather than the constant 1 -- the conjuncts of that condition (`x.eq(c)` under G raises x under G & c)."""
+    out = list(a.guard)
+    if isinstance(a.rhs, E) and a.rhs.op != 'const':
+        from .ir import _known_one_bit
+        if _known_one_bit(a.rhs):
+            out += literals(a.rhs, True)
+    return out
+
+
+def common_atoms(items, without=()):
+    """{atom: polarity} of the simple (one-atom) guard literals shared by every item, except the atoms named in
+    `without` (compound literals are left to be enumerated through their leaves)."""
+    from .fsm import lit_atoms
+    sets = [{atom_of(l) for l in a.guard if lit_atoms(l) == {atom_of(l)[0]}} for a in items]
+    if not sets:
+        return {}
+    return {a: p for a, p in set.intersection(*sets) if a not in without}
